@@ -185,6 +185,15 @@ def canon(e, sort_comm=True):
             # True if c else False  ==  bool(c)
             if isinstance(n.body, ast.Constant) and n.body.value is True and isinstance(n.orelse, ast.Constant) and n.orelse.value is False:
                 return ast.Call(func=ast.Name(id='bool', ctx=ast.Load()), args=[n.test], keywords=[])
+            # B if A else False  ==  A and B   and   True if A else B  ==  A or B   when A itself is a bool (a predicate call, a comparison, a `not`)
+            def _boolean(t):
+                return isinstance(t, ast.Compare) or (isinstance(t, ast.UnaryOp) and isinstance(t.op, ast.Not)) or \
+                    (isinstance(t, ast.Call) and isinstance(t.func, ast.Name) and (t.func.id.startswith('is_') or t.func.id in ('isinstance', 'issubclass', 'callable', 'hasattr', 'bool'))) or \
+                    (isinstance(t, ast.BoolOp) and all(_boolean(v) for v in t.values))
+            if isinstance(n.orelse, ast.Constant) and n.orelse.value is False and _boolean(n.test):
+                return self.visit_BoolOp(ast.BoolOp(op=ast.And(), values=[n.test, n.body]))
+            if isinstance(n.body, ast.Constant) and n.body.value is True and _boolean(n.test):
+                return self.visit_BoolOp(ast.BoolOp(op=ast.Or(), values=[n.test, n.orelse]))
             # x if x else y  ==  x or y   (x a plain name: reading it twice changes nothing)
             if isinstance(n.test, ast.Name) and isinstance(n.body, ast.Name) and n.body.id == n.test.id:
                 return self.visit_BoolOp(ast.BoolOp(op=ast.Or(), values=[n.test, n.orelse]))
